@@ -192,6 +192,8 @@ void SCPI_ErrorPushEx(scpi_t * context, int16_t err, char * info, size_t info_le
 
     SCPI_ErrorEmit(context, err);
     if (queue_overflow) {
+        /* -350 was queued in place of the error: it is a device specific error, ch 21.8.11 */
+        SCPI_RegSetBits(context, SCPI_REG_ESR, ESR_DER);
         SCPI_ErrorEmit(context, SCPI_ERROR_QUEUE_OVERFLOW);
     }
 
